@@ -7,7 +7,7 @@ for id in $(python3 -c "import json; print(' '.join(c['property_id'] for c in js
   case " $SKIP " in *" $id "*) continue;; esac
   if [ -n "$ONLY" ]; then case " $ONLY " in *" $id "*) ;; *) continue;; esac; fi
   t0=$(date +%s)
-  VERIF_SEED=$seed ./check $id --tier $tier $EXTRA > /dev/shm/sweep_out_${id}${TAG}.txt 2>&1; rc=$?
+  VERIF_SEED=$seed timeout ${TMO:-36000} ./check $id --tier $tier $EXTRA > /dev/shm/sweep_out_${id}${TAG}.txt 2>&1; rc=$?
   t1=$(date +%s)
   echo "$id rc=$rc wall=$((t1-t0))s known=$(grep -c '^KNOWN-FINDING' /dev/shm/sweep_out_${id}${TAG}.txt) :: $(grep "^$id tier" /dev/shm/sweep_out_${id}${TAG}.txt | tail -1)" >> $out
 done
